@@ -331,3 +331,7 @@ pub broadcast proof fn lemma_all_zero_concat(a: Seq<u8>, b: Seq<u8>)
 pub open spec fn sls_inputs_ok<CS: CipherSuite, S: SecretKey<CS::KeGroup>>(setup: ServerSetup<CS, S>, pf: Option<ServerRegistration<CS>>, cred_id: Seq<u8>, p: ServerLoginStartParameters) -> bool {
     cl_ctx_fit(p.context) && ids_fit(p.identifiers) && rfc_oprf_key::<CS>(setup.oprf_seed@, cred_id) is Ok
 }
+/// an OPRF element encoding that opaque-ke accepts: decodes, and re-encodes to itself
+pub open spec fn elem_canonical<CS: CipherSuite>(b: Seq<u8>) -> bool {
+    <OprfGroup<CS> as Group>::de_elem(b) is Some && <OprfGroup<CS> as Group>::ser_elem(<OprfGroup<CS> as Group>::de_elem(b)->0) == b
+}
